@@ -127,6 +127,7 @@ type Exec struct {
 	scaled      map[string]scaledTerm
 	randDraws   int
 	digests     []digestTerm
+	schedND     bool
 	globApps    [][2]string
 	maxRand     int
 	maxCex      int
@@ -549,7 +550,8 @@ func (e *Exec) model() map[string]string {
 			case metafree[pAbs]:
 				continue // keeps its plain spelling: matches exactly itself
 			case len(matched[pAbs]) == 0:
-				pat = "~nomatch~" + m[names[0]]
+				// a pattern with a metacharacter that does not match its own text
+				pat = "[~]nomatch" + m[names[0]]
 			default:
 				pat = "{" + strings.Join(matched[pAbs], ",") + "}"
 			}
